@@ -42,6 +42,10 @@ try:
     demo_cmd = re.sub(r"/tmp/agent-[A-Za-z0-9]+/demo_\d+", demo_dst, meta["demo_cmd"])
     # demos for the big-endian interpreter were given the agent's own Miri sysroot: any s390x Miri sysroot does
     demo_cmd = re.sub(r"MIRI_SYSROOT=/tmp/agent-[A-Za-z0-9]+/miri-sysroot", "MIRI_SYSROOT=/verif/target/miri-sysroot-s390x", demo_cmd)
+    # any other foreign target: the sysroot this repository's checks built for it
+    mt = re.search(r"--target (\w+)-", demo_cmd)
+    if mt and os.path.isdir("/verif/target/miri-sysroot-" + mt.group(1)):
+        demo_cmd = re.sub(r"MIRI_SYSROOT=\S+", "MIRI_SYSROOT=/verif/target/miri-sysroot-" + mt.group(1), demo_cmd)
     rc0, out0 = sh(demo_cmd)
     res["demo_without_change_rc"] = rc0
     rc, out = sh("git apply %s" % patch_file, cwd=wt)
